@@ -182,6 +182,23 @@ def r6(ctx, prog):
     ctx.floor(R, 3)
 
 
+def r7(ctx, prog):
+    R = ctx.rule("C10.R7", "heap meta-data outlives every destroyable heap: mi_heap_new_ex allocates the mi_heap_t from the thread's *backing* heap (which is never destroyed or "
+                           "deleted before the thread ends) — taken from the current default heap it would be freed by mi_heap_destroy of that heap while still in use")
+    f = prog.fn("mi_heap_new_ex")
+    allocs = [c for c in f.calls() if (f.nodes[c].get("callee") or "").startswith(("mi_heap_malloc", "mi_heap_zalloc", "mi_heap_calloc", "_mi_heap_malloc"))]
+    if not allocs:
+        ctx.broke("C10.R7: no heap allocation of the mi_heap_t in mi_heap_new_ex")
+    for c in allocs:
+        vals = rl.values_of(f, rl.arg(f, c, 0))
+        ok = any(rl.is_call(f, v, "mi_heap_get_backing") for v in vals) or any(rl.field_is(f, v, "heap_backing") for v in vals)
+        ctx.check(R, ok, f.where(c), "the new heap's structure is allocated from mi_heap_get_backing() (found: %s)" % [f.text(v)[:40] for v in vals][:3], key="C10.R7:backing")
+    g = prog.fn("mi_heap_get_backing")
+    ok = any(rl.field_is(g, v, "heap_backing") for r in g.all(kind="ReturnStmt") if "val" in g.nodes[r] for v in rl.values_of(g, g.nodes[r]["val"]))
+    ctx.check(R, ok, g.where(), "mi_heap_get_backing returns tld->heap_backing", key="C10.R7:get_backing")
+    ctx.floor(R, 2)
+
+
 def run(ctx):
     ctx.explanation = ("Static decision of C10's code-shaped necessary conditions on every CFG path of heap delete/absorb/destroy and of the ownership "
                        "queries: guards (compatibility, no_reclaim), ordering (must-pass-through), never-after-free, who-may-call for page abandonment. "
@@ -189,7 +206,7 @@ def run(ctx):
     for c in (["REL"] if ctx.tier == "quick" else ["REL", "SEC", "DBG"]):
         prog = ctx.prog(c)
         n0 = len(ctx.instances)
-        r1(ctx, prog); r2(ctx, prog); r3(ctx, prog); r4(ctx, prog); r5(ctx, prog); r6(ctx, prog)
+        r1(ctx, prog); r2(ctx, prog); r3(ctx, prog); r4(ctx, prog); r5(ctx, prog); r6(ctx, prog); r7(ctx, prog)
         if c != "REL":
             for i in ctx.instances[n0:]:
                 i["site"] += " [%s]" % c
